@@ -54,6 +54,17 @@ class Facts:
                         _expr.AGG_FIELDS[a["path"].split("::")[-1] + "::" + v["name"]] = names
         except ImportError:
             pass
+        # fields that exist only under `#[cfg(debug_assertions)]` (bookkeeping for debug_assert!s): a
+        # release build does not have them, so no property can rest on them -- they are treated
+        # like PhantomData (no state to reset / copy / serialise / report)
+        self.debug_only_fields = set()
+        for a in d["adts"]:
+            for v in a.get("variants", []):
+                for f in v["fields"]:
+                    at = " ".join(str(x) for x in (f.get("attrs") or []))
+                    if "CfgTrace" in at and 'name: "debug_assertions"' in at and "Not(" not in at:
+                        f["ty"]["debug_only"] = True
+                        self.debug_only_fields.add((a["path"], f["name"]))
         try:
             import model as _model
             _model.UNIT_ADTS.clear()
@@ -110,8 +121,9 @@ class Facts:
     def _alias_twins(self, d):
         """A method that does nothing but forward to a private method of the same type with extra
         trailing arguments of zero-sized or generic type (`fn push(&mut self, x) {
-        self.push_traced(x, &mut NoTrace) }`, the twin carrying a pluggable hook) *is* that twin as
-        far as callers are concerned: a call of the twin from elsewhere in the crate
+        self.push_traced(x, &mut NoTrace) }`, the twin carrying a pluggable hook), or to a private
+        *fallible* twin whose Result / Option it unwraps (`fn push(&mut self, x) {
+        self.try_push(x).unwrap() }`), *is* that twin as far as callers are concerned: a call of the twin from elsewhere in the crate
         (`self.strided.push_traced(item, tracer)`) is read as a call of the method it implements,
         with the extra arguments dropped.  The twin's body is then analysed once, inlined into its
         forwarder.  Returns {twin key: forwarder key}."""
@@ -128,21 +140,38 @@ class Facts:
             if b["kind"] not in ("Fn", "AssocFn") or "::tests::" in b["key"]:
                 continue
             live = [blk for blk in b["blocks"] if not blk["cleanup"]]
-            if len(live) > 4 or any(blk["term"]["k"] in ("switch", "assert") for blk in live):
+            if len(live) > 8 or any(blk["term"]["k"] == "assert" for blk in live):
                 continue
             calls = [blk["term"] for blk in live if blk["term"]["k"] == "call"]
-            if len(calls) != 1:
+
+            def adapter(t_):
+                """what a forwarder may do with the twin's result: unwrap it, or panic on its error"""
+                ce_ = t_.get("callee") or {}
+                if t_.get("target") is None:
+                    return True  # diverges (the panic of a `match .. { Err(e) => panic!(..) }` arm)
+                pth_ = str(ce_.get("path") or "")
+                return (not ce_.get("local")) and ce_.get("name") in ("unwrap", "expect", "unwrap_or_else", "into", "from", "branch") \
+                    and ("Result" in pth_ or "Option" in pth_ or "convert" in pth_ or "Try" in pth_)
+            main_calls = [t_ for t_ in calls if not adapter(t_)]
+            if len(main_calls) != 1:
                 continue
-            t = calls[0]
+            unwrapped = len(calls) > 1 or any(blk["term"]["k"] == "switch" for blk in live)
+            if sum(1 for blk in live if blk["term"]["k"] == "switch") > 1:
+                continue
+            t = main_calls[0]
             ce = t.get("callee") or {}
             k2 = (ce.get("resolved") or {}).get("key") or ce.get("key")
             tgt = by_key.get(k2)
             if not ce.get("local") or tgt is None or tgt is b or tgt.get("vis_pub") or tgt["kind"] != "AssocFn":
                 continue
             n, m = b["arg_count"], tgt["arg_count"]
-            if not (m > n >= 1) or len(t["args"]) != m:
+            if not (m >= n >= 1) or len(t["args"]) != m:
                 continue
-            if t["dest"]["l"] != 0 and (tgt["locals"][0]["ty"].get("s") != "()" or b["locals"][0]["ty"].get("s") != "()"):
+            if m == n and not unwrapped:
+                continue  # same signature, result untouched: an ordinary delegation, left to the inliner
+            if m == n and not str(tgt["locals"][0]["ty"].get("s") or "").replace("std::result::", "").replace("std::option::", "").startswith(("Result<", "Option<")):
+                continue  # (the fallible twin returns Result / Option, the forwarder unwraps it)
+            if not unwrapped and t["dest"]["l"] != 0 and (tgt["locals"][0]["ty"].get("s") != "()" or b["locals"][0]["ty"].get("s") != "()"):
                 continue
             sa = ((b.get("owner") or {}).get("impl_self") or {}).get("adt")
             if not sa or sa != ((tgt.get("owner") or {}).get("impl_self") or {}).get("adt"):
@@ -216,6 +245,53 @@ class Facts:
                     t["args"] = t["args"][:fwd["arg_count"]]
                     t["twin_of"] = k2
         return {k2: fwd["key"] for k2, fwd in alias.items()}
+
+    def custom_iterator_adts(self):
+        """crate types with a hand-written `Iterator` impl that the pinned tree does not have
+        (`struct CellPusher<..>` in place of a closure handed to `map`)"""
+        if getattr(self, "_custom_iters", None) is None:
+            import json as _json
+            import os as _os
+            out = set()
+            try:
+                pinned = set(_json.load(open(_os.path.join(_os.path.dirname(_os.path.abspath(__file__)), "pinned_adts.json"))))
+            except (OSError, ValueError):
+                pinned = None
+            if pinned is not None:
+                for im in self.impls:
+                    if (im.get("trait") or "") in ("std::iter::Iterator", "core::iter::Iterator") and not im.get("derived"):
+                        a_ = (im.get("self_ty") or {}).get("adt")
+                        if a_ and a_ in self.adts and a_ not in pinned and "::tests::" not in a_:
+                            out.add(a_)
+            self._custom_iters = out
+        return self._custom_iters
+
+    def custom_newtype_adts(self):
+        """single-field structs the pinned tree does not have that carry arithmetic or ordering of
+        their own (`struct BitPos(usize)` with `impl Add`, derived `PartialOrd`): positions and
+        lengths wrapped in them are computed and compared through calls the rules do not read"""
+        if getattr(self, "_custom_newtypes", None) is None:
+            import json as _json
+            import os as _os
+            out = set()
+            try:
+                pinned = set(_json.load(open(_os.path.join(_os.path.dirname(_os.path.abspath(__file__)), "pinned_adts.json"))))
+            except (OSError, ValueError):
+                pinned = None
+            if pinned is not None:
+                ops = ("std::ops::", "core::ops::", "std::cmp::PartialOrd", "core::cmp::PartialOrd", "std::cmp::Ord", "core::cmp::Ord")
+                for im in self.impls:
+                    tr = im.get("trait") or ""
+                    if not tr.startswith(ops):
+                        continue
+                    a_ = (im.get("self_ty") or {}).get("adt")
+                    ad = self.adts.get(a_) if a_ else None
+                    if ad and a_ not in pinned and "::tests::" not in a_ and ad.get("kind") == "struct" and ad.get("variants") and \
+                            len(ad["variants"][0]["fields"]) == 1 and ad["variants"][0]["fields"][0]["ty"]["s"] in (
+                                "usize", "u8", "u16", "u32", "u64", "u128", "isize", "i64", "i32"):
+                        out.add(a_)
+            self._custom_newtypes = out
+        return self._custom_newtypes
 
     def body(self, key):
         return self.bodies.get(key)
